@@ -20,13 +20,23 @@ def index_to_tuple(index: int, m: int, base: int):
     return tuple(reversed(out))
 
 
+def level_sizes(tables):
+    """Number of trie nodes per order once every suffix of a listed n-gram is present too."""
+    n = len(tables)
+    keys = [set(t) for t in tables]
+    for m in range(n - 1, 0, -1):
+        for k in keys[m]:
+            keys[m - 1].add(k[1:])
+    return [len(k) for k in keys]
+
+
 def build_tables(spec, symbols):
     """Expand the JSON table spec of a case into dictionaries.
 
     spec: list over orders m = 1..n of either
       {"entries": [[index, p8, b8], ...]}                   explicit entries
-      {"excluded": [index, ...], "a": int, "b": int, "c": int, "inf_mod": int, "keep_mod": int}
-                                                            every keep_mod-th tuple but the excluded
+      {"excluded": [index, ...], "a": int, "b": int, "c": int, "inf_mod": int, "keep_mod": int, "keep_lt": int, "count": int or None}
+                                                            tuples with (index+b) % keep_mod < keep_lt but the excluded
                                                             ones, values derived from the index
     p8 is an integer number of eighths (<= 0) or None for -inf; b8 an integer number of
     eighths.  ``symbols`` lists the ids a key may use (vocabulary, plus sos when it is not
@@ -47,9 +57,13 @@ def build_tables(spec, symbols):
         else:
             excl = {i % base ** m for i in s["excluded"]}
             a, b, c, inf_mod = s["a"], s["b"], s["c"], s["inf_mod"]
-            keep_mod = s.get("keep_mod", 1)
-            for index in range(base ** m):
-                if index in excl or (index + b) % keep_mod:
+            keep_mod, keep_lt = s.get("keep_mod", 1), s.get("keep_lt", 1)
+            count = s.get("count")
+            total = base ** m
+            for index in range(total):
+                if index in excl or (index + b) % keep_mod >= keep_lt:
+                    continue
+                if count is not None and (index * a + b) % total >= count:
                     continue
                 key = tuple(symbols[i] for i in index_to_tuple(index, m, base))
                 p = -((index * a + b) % 65) / 8.0
